@@ -30,7 +30,10 @@ NameA == <<65>>   NameB == <<66>>   NameC == <<67>>
 (* a "token" of the alphabet is a short token sequence (snippets keep the universe small) *)
 Base == { <<TId(NameA)>>, <<TId(NameB)>>, <<TId(NameC)>>, <<TOp("and")>>, <<TOp("or")>>, <<TNot>>, <<TLp>>, <<TRp>> }
 FldF == <<102>>  FldG == <<103>>
-Snippets == { <<TMatch("all"), TLp, TId(NameA), TRp>>,
+NameZ == <<90>>                       \* "Z": an identifier the rule does NOT define
+Snippets == { <<TId(NameZ)>>, <<TMatch("all"), TLp, TId(NameZ), TRp>>,
+              <<TMatch("of"), TLp, TId(NameZ), TComma, TInt(<<1>>), TRp>>,
+              <<TMatch("all"), TLp, TId(NameA), TRp>>,
               <<TMatch("of"), TLp, TId(NameB), TComma, TInt(<<1>>), TRp>>,
               <<TMod("int"), TLp, TId(FldF), TRp>>,
               <<TMod("flt"), TLp, TId(FldG), TRp>>,
@@ -102,7 +105,7 @@ Relevant(a) == \A n \in Names \ UsedNames : a[n] = "M"
 DocSet == { OV(Kv(NameA, a[NameA]) \o Kv(NameB, a[NameB]) \o Kv(NameC, a[NameC]) \o nd) :
               a \in {b \in Assign : Relevant(b)}, nd \in NumDocs }
 
-Emit == ts # <<>> /\ (~IsErr(Ref) \/ ~IsErr(Eng) \/ Len(ts) <= EmitRejLen) =>
+Emit == ts # <<>> /\ (~IsErr(Ref) \/ ~IsErr(Eng) \/ cnt <= EmitRejLen) =>
   PrintT("REPLAY " \o ToJson([topic |-> "C05", form |-> IF IsErr(Ref) THEN "rejected" ELSE "accepted",
                                oracle |-> TRUE, wt |-> FALSE, bodies_ok |-> TRUE,
                                src |-> [cond |-> [t |-> "text", s |-> Render(ts, sp)], ids |-> Ids],
